@@ -33,7 +33,8 @@ KNOBS = {
     "p_deps": 0.05,
     "p_sync": 0.1,
     "middlewares": (0, 1),
-    "durations": {"zero": 2, "tiny": 2, "short": 3, "medium": 3, "long": 4, "poll": 2},
+    "durations": {"zero": 2, "tiny": 2, "short": 3, "medium": 3, "long": 4, "poll": 2, "tie": 1},
+    "p_cleanup": 0.3,
 }
 
 
